@@ -51,7 +51,8 @@ def plan(tier, seed):
         i += 1
     q = S(tier, 120, 1200)
     for r in range(q):
-        cases.append(dict(lane='builtin', K=int(rng.integers(1, 5)), F=int(rng.integers(1, 6)), T=int(rng.integers(1, 30)), spread=float(pick([0.5, 3, 30])),
+        Kb = int(rng.integers(1, 5)) if r % 6 else int(pick([5, 5, 6]))          # K = 5, 6: 120 / 720 candidate pairings per bin
+        cases.append(dict(lane='builtin', K=Kb, F=int(rng.integers(1, 6)) if Kb <= 4 else int(pick([1, 2])), T=int(rng.integers(1, 30)), spread=float(pick([0.5, 3, 30])),
                           eps=float(pick([0, 0, 1e-10, 1e-3])), wkind=pick(['fk', 'k', 'kt', 'scalar']), rs=[seed, 18, i]))
         i += 1
     if tier == 'thorough':
@@ -256,6 +257,29 @@ def run_inline(case, R):
                     R.check('C14.inline', r <= 1e-6, f'inline/{s.kind}/quadratic-form-permuted-differently', f'iteration {i}, bin {f}: quadratic form not permuted with the posterior (rel {r:.2e})', aligner=case['aligner'])
             colsum = float(np.abs(aff.sum(1) - 1).max())
             R.check('C14.inline', colsum <= 1e-9, f'inline/{s.kind}/class-sum', f'sum over classes changed by alignment ({colsum:.2e})')
+            # which reordering: the one the configured aligner computes from the (soft) Bayes posterior itself
+            try:
+                kft = np.ascontiguousarray(np.transpose(ref, (1, 0, 2)))
+                want = np.asarray(scen.make_aligner(al).calculate_mapping(kft))
+                rr = np.random.default_rng([*case['rs'], i])
+                stable = all(np.array_equal(want, np.asarray(scen.make_aligner(al).calculate_mapping(kft * (1 + 1e-9 * rr.uniform(-1, 1, size=kft.shape))))) for _ in range(2))
+                got_map = np.empty_like(want)
+                okmap = True
+                for f in range(F):
+                    found = [p for p in itertools.permutations(range(s.K)) if np.abs(aff[f] - ref[f, list(p)]).max() <= tol]
+                    if len(found) != 1:
+                        okmap = False
+                        break
+                    got_map[:, f] = found[0]
+                if okmap and stable:
+                    R.check('C14.inline', np.array_equal(got_map, want), f'inline/{s.kind}/not-the-aligners-mapping',
+                            f'iteration {i}: the posteriors were reordered with another mapping than the configured aligner computes from them ({int((got_map != want).any(0).sum())} of {F} bins differ)', aligner=case['aligner'])
+                elif okmap:
+                    R.undecided('C14.inline', 'aligner mapping sensitive to 1e-9 perturbations (near-tie)')
+            except Exception as e:
+                if not instr.is_library_exception(e):
+                    raise
+                R.count(f'recomputing the aligner mapping raised {type(e).__name__}')
     R.mark_nontrivial('inline', s.kind, case['aligner'], s.K, F)
 
 
